@@ -283,6 +283,12 @@ def check(prop, tier):
             failed_merges(v, tier, tag)
         if prop == "C12" and not v.violations:
             hints_after_crash(v, tier, tag)
+        if prop in ("C01", "C02", "C12", "C13") and not v.violations:
+            import fscalls
+            keep = {"C01": lambda b: True, "C02": lambda b: True,
+                    "C12": lambda b: ["merge"] in b["ops"],
+                    "C13": lambda b: b["cfg"]["thSmall"] >= 1000000}[prop]
+            fscalls.under_faults(v, prop, tier, tag, keep=keep, share=3 if prop in ("C01", "C02") else 2)
         nruns = sum(s["runs"] for s in summary.values())
         v.cov["traces_validated_against_impl"] = nruns
         v.cov["behaviours_generated_by_tlc"] = nb
@@ -310,8 +316,8 @@ def check(prop, tier):
 def replay(prop, path):
     """Re-execute the behaviour of a replay file against the current tree and judge it again."""
     rp = json.load(open(path))
-    if rp.get("mode") == "fault":
-        # a failed-merge run of C05: replayed by the fault machinery
+    if rp.get("mode") in ("fault", "crash", "power"):
+        # a run with a failed call / a kill (C05 failed merges, the under-faults and after-crash parts): replayed by the fs-call machinery
         import fscalls
         return fscalls.replay(prop, path)
     v = Verdict(prop, "quick")
